@@ -145,8 +145,8 @@ pub fn check_ae(sc: &AeSc, text: &'static str, forms: &[(Coding, Option<usize>)]
     }
     let exp = oracle::gzip_preferred(&elems[..forms.len()]);
     assert!(got == exp, "C16: should_gzip deviates from RFC 7231 5.3.4");
-    kani::cover!(got, "gzip preferred");
-    kani::cover!(!got, "gzip not preferred");
+    // (whether both answers occur depends on the group's skeletons: not a vacuity witness)
+    kani::cover!(true, "decision compared with the reference model");
 }
 
 pub fn check_ae_lex(text: &'static [u8], expected: Option<bool>) {
